@@ -24,7 +24,8 @@ PROBES = {"C13": ["stretch_inside_training", "stretch_overlapping_end", "stretch
                   "frozen_update_checked", "period_changed_and_refitted",
                   "fit_transform_on_fitted_instance", "unpaired_calls_checked",
                   "sibling_from_same_arguments", "refitted_on_structureless_series",
-                  "failed_refit_checked", "non_consecutive_training_index", "integer_valued_series"]}
+                  "failed_refit_checked", "non_consecutive_training_index", "integer_valued_series",
+                  "update_with_older_data"]}
 FAULT_KINDS = {"C13": ["index_shift", "pickle_roundtrip", "update_interleaved", "overlap_batch",
                        "shared_constructor_arguments", "fit_raises_midway"]}
 RULE = {"C13": (
@@ -67,6 +68,10 @@ def gen_spec(rng):
             t = C.gen_transformer(rng)
         ts.append(t)
         positive = positive and C.keeps_positive(t)
+    if rng.random() < 0.3:
+        # a step that a pipeline does not invert (tagged skip-inverse-transform), as in the
+        # pipeline of the class's own docstring
+        ts.insert(0, {"kind": "imputer", "method": rng.choice(["drift", "linear", "mean"])})
     return {"kind": "ttf_t", "transformers": ts}
 
 
@@ -152,7 +157,7 @@ def generate(prop, rng, tier):
         elif r < 0.82:
             take = rng.choice([1, 2, 3, 5, 8]) if minstretch == 1 else rng.choice([8, 10, 12])
             ops.append({"op": "update", "take": take, "overlap": rng.choice([0, 0, 1, 2]),
-                        "up": rng.random() < 0.5})
+                        "up": rng.random() < 0.5, "before": rng.random() < 0.12})
             total += take
         elif r < 0.88:
             ops.append({"op": "fit_transform", "strided": rng.random() < 0.4})
@@ -320,6 +325,12 @@ def execute(prop, scen):
                     continue
                 ov = min(op["overlap"], pos)
                 a, b = pos - ov, pos + op["take"]
+                if op.get("before") and PRE:
+                    # older observations, from before the training start into it, handed over
+                    # late (update_params=False: nothing may be re-estimated)
+                    a, b = -PRE, op["take"]
+                    op = dict(op, up=False)
+                    res.probe("update_with_older_data")
                 if b > len(y):
                     continue
                 probe_z = y.iloc[max(0, n_fit - 6):n_fit]
@@ -330,7 +341,8 @@ def execute(prop, scen):
                             before_t = t.transform(probe_z.copy())
                     except Exception:
                         before_t = None
-                if both("update", lambda tr, yy: tr.update(yy.iloc[a:b], update_params=op["up"])) is None:
+                if both("update", lambda tr, yy: tr.update(
+                        (full if yy is y else full2).iloc[a + PRE:b + PRE], update_params=op["up"])) is None:
                     break
                 if before_t is not None:
                     try:
@@ -345,7 +357,7 @@ def execute(prop, scen):
                               "changed what transform returns for a fixed stretch: %s -> %s" % (
                                   C.fmt(before_t), C.fmt(after_t)))
                             break
-                pos = b
+                pos = max(pos, b)
                 updates_since_fit += 1
                 res.fault("update_interleaved")
                 if ov:
